@@ -101,7 +101,11 @@ def c_rotmap(ctx, args):
     be, g, l = args[:3]
     mask = args[3] if len(args) > 3 else None
     I = impl(be).OPS
-    a = I['rotate'](g, mask, l)
+    NP.set_layout(args[4] if len(args) > 4 and be == 'np' else 'c')      # the operand as a strided / Fortran-ordered / column-sliced view (list[::2], the inverse of a map)
+    try:
+        a = I['rotate'](g, mask, l)
+    finally:
+        NP.set_layout('c')
     m = I['rotation_map'](g)
     b = I['transform'](m, mask, l)
     if norm(a) != norm(b):
@@ -167,6 +171,12 @@ def run(ctx):
             n = rng.randint(1, N)
             mask = None if n == N else gen.rmask(rng, N, n)[0]
             do(ctx, 'tr_corr', [be, gen.rmap(rng, ctx.model, n), mask, gen.rplist(rng, N, L)], nontrivial=('long', be, L))
+    # SPARSE generators on wide registers, unmasked, either sign (a rotation about one or two qubits of many)
+    for N in gen.BIG:
+        for be in backends:
+            g = gen.rsparse(rng, N, rng.randint(1, 2))
+            l = [gen.rsparse(rng, N, rng.randint(1, 3), herm=False, pool=[q for q in range(N) if g[0][2 * q] or g[0][2 * q + 1]] + [0, N - 1]) for _ in range(4)] + gen.rplist(rng, N, 2)
+            do(ctx, 'rotmap', [be, g, l], nontrivial=('sparse', be, N))
     # LARGE registers: byte, word and cache-line boundaries of every packed or vectorised representation (8, 9, 16, 17, 33, 64, 65 qubits); model correspondence only
     for N in gen.BIG:
         for be in backends:
@@ -209,7 +219,8 @@ def run(ctx):
         k = rng.randint(1, N - 1)
         mask = gen.rmask(rng, N, k)[0]
         g = gen.rpauli(rng, k, herm=True, nonzero=True)
-        do(ctx, 'rotmap', [rng.choice(backends), g, gen.rplist(rng, N, 4), mask], nontrivial=('rmm', ctx.res.evaluations))
+        do(ctx, 'rotmap', [rng.choice(backends), g, gen.rplist(rng, N, 4), mask, rng.choice(['c', 'strided', 'fortran', 'colslice'])], nontrivial=('rmm', ctx.res.evaluations))
+        do(ctx, 'rotmap', [rng.choice(backends), gen.rpauli(rng, N, herm=True, nonzero=True), gen.rplist(rng, N, 4), None, rng.choice(['strided', 'fortran', 'colslice'])], nontrivial=('rml', ctx.res.evaluations))
     for _ in range(int(150 * B)):
         N = rng.randint(1, 5)
         k = rng.randint(1, N)
